@@ -39,7 +39,7 @@ ASSUMPTIONS = [
 ]
 PARTIAL = [
     "PROVED since the first build (no longer partial): west2_iff_avoids (West), quickSortable_iff_avoids, baxter_iff_vincular, simsun_iff_double_descent, forestLike_iff_barred - for every permutation; the oracle's bounded cross-checks of the same statements still run as tests",
-    'ytShape_eq_RSK (Greene): shape of _perm_to_yt = (LIS, largest 2-increasing union) - bounded TEST |s|<=6; independent Schensted insertion up to |s|<=40',
+    'PROVED (no longer partial), every tuple of distinct naturals: ytShape_eq_RSK (Greene, every k: first k rows of _perm_to_yt = largest union of k increasing subsequences), schensted_first_row / schensted_row_count (LIS / LDS), tableau invariants permToYt_rows_increasing / _columns_increasing / _shape_partition / _entries, ytAvoids22_iff_hook / ytAvoids22_iff_greene / ytAvoids32_iff_hook / ytAvoids32_iff_greene; the oracle\'s independent Schensted insertion (|s|<=40) and brute-force Greene invariants (|s|<=6) still run as tests',
     "Ungar's bound (n-1 pop-stack passes) is not attempted; termination is proved with the bound inv(s) <= n^2",
 ]
 TRUSTED = ["Perm.count_inversions modelled at specification level (pair count)",
